@@ -20,16 +20,23 @@ Results (all inputs, no bounds):
   * `verifyPolya_tail_far` / `verifyPolyt_tail_far`  tail beyond `apa_delta`, no fake-terminal-exon / terminal-exon-misalignment
      event at that end, the isoform exons lying beyond the tail (if any) longer than the missed-exon tolerances: the event
      `alternative_polya_site_*` is appended — a major inconsistency (`alternative_polya_site_is_major`);
-  * `tail_far_never_consistent`  assignment level, for the read's whole gene: on the paths that end in `match_inconsistent`
-     (inconsistent dispatch and the fall-back of `match_consistent`) the type is not unique / unique_minor_difference / ambiguous;
-     `tail_far_not_consistent_path`: the consistent path cannot produce the assignment either, given the same fact about the
-     event lists it verifies.  This is the converse clause for "distant ends" that `C01FakeTerminal.far_never_consistent`
+  * `tail_far_never_consistent`  assignment level, for the read's whole gene and EVERY path of `assign_to_isoform`: the type
+     is not unique / unique_minor_difference / ambiguous and the answer never comes from the consistent path
+     (`tail_far_not_consistent_path`: `match_consistent` → `check_read_ends` → `verify_read_ends_for_assignment` gives an
+     inconsistent type, so `match_consistent` returns None; `tail_far_never_consistent_partial`: the paths that end in
+     `match_inconsistent`).  This is the converse clause for "distant ends" that `C01FakeTerminal.far_never_consistent`
      excluded ("reads carrying a polyA / polyT position are not covered").
+  * `tail_far_never_consistent_geom` / `_b`  the same with the comparator MODELLED and its hypothesis ("no fake terminal exon /
+     terminal exon misalignment at the 3' end") derived from the position-only predicate `EndGeom`
+     (`cjModel_no_end_artifact`, on top of Lemmas/C01CmpEnd.lean `compareJunctions_art`: every end-artifact event of
+     `compare_junctions` is explained by the positions, for all inputs).  `incomplete_intron_retention_*` needs no
+     exclusion (`verifyReadEnds_tail_far_major_w`: it is a major inconsistency that polyA verification keeps).
 -/
 import IsoVerif.Props.C01FakeTerminal
+import IsoVerif.Lemmas.C01CmpEnd
 
 namespace IsoVerif.Props.C01Tail
-open IsoVerif.Gen IsoVerif.Model IsoVerif.Model.C01 IsoVerif.Lemmas IsoVerif.Lemmas.C01
+open IsoVerif.Gen IsoVerif.Model IsoVerif.Model.C01 IsoVerif.Lemmas IsoVerif.Lemmas.C01 IsoVerif.Lemmas.C01Cmp
 open IsoVerif.Props.C01
 
 /-! ### the tail-position hypotheses -/
@@ -478,16 +485,66 @@ theorem verifyReadEnds_tail_far_major (p : Params) (rp : ReadProf) (I : IsoInfo)
     subst hr0
     exact ⟨_, List.mem_append_right _ (List.mem_singleton.mpr rfl), alternative_polya_site_is_major.2⟩
 
-/-- **tail_far_never_consistent** (converse clause, "distant ends", assignment level): let the tail the read carries be far
+/-- the two end artifacts that are NOT major inconsistencies (the ones that let polyA verification re-interpret a far tail:
+    "we believe the isoform end is a true polyA site"): no fake terminal exon, no terminal exon misalignment at I's 3' end.
+    `incomplete_intron_retention_*` needs no exclusion: it is itself a major inconsistency and survives polyA verification -/
+def NoEndArtifactW (I : IsoInfo) (evs : List Event) : Prop :=
+  match I.strand with
+  | .plus => ∀ e ∈ evs, e.ty ≠ .fake_terminal_exon_right ∧ e.ty ≠ .terminal_exon_misalignment_right
+  | .minus => ∀ e ∈ evs, e.ty ≠ .fake_terminal_exon_left ∧ e.ty ≠ .terminal_exon_misalignment_left
+  | .other => True
+
+theorem noEndArtifact_weaken {I : IsoInfo} {evs : List Event} (h : NoEndArtifact I evs) : NoEndArtifactW I evs := by
+  unfold NoEndArtifact at h
+  unfold NoEndArtifactW
+  cases hs : I.strand <;> simp only [hs] at h ⊢
+  · intro e he; exact ⟨(h e he).1, (h e he).2.1⟩
+  · intro e he; exact ⟨(h e he).1, (h e he).2.1⟩
+
+theorem noEndArtifactW_append {I : IsoInfo} {a b : List Event} (ha : NoEndArtifactW I a) (hb : NoEndArtifactW I b) :
+    NoEndArtifactW I (a ++ b) := by
+  unfold NoEndArtifactW at ha hb ⊢
+  cases hs : I.strand <;> simp only [hs] at ha hb ⊢
+  · intro e he; rcases List.mem_append.mp he with he | he
+    · exact ha e he
+    · exact hb e he
+  · intro e he; rcases List.mem_append.mp he with he | he
+    · exact ha e he
+    · exact hb e he
+
+/-- **converse clause at the level of one isoform, weakest artifact hypothesis**: a far tail leaves a major-inconsistency
+    event in the verified list — `alternative_polya_site_*`, or an `incomplete_intron_retention_*` event that was there -/
+theorem verifyReadEnds_tail_far_major_w (p : Params) (rp : ReadProf) (I : IsoInfo) (evs r : List Event)
+    (hblocks : rp.blocks ≠ []) (hfar : TailFar p rp I) (hart : NoEndArtifactW I evs)
+    (hr : verifyReadEnds p rp I evs = some r) : ∃ e ∈ r, e.ty.is_major_inconsistency = true := by
+  by_cases hinc : ∃ e ∈ evs, e.ty = .incomplete_intron_retention_right ∨ e.ty = .incomplete_intron_retention_left
+  · obtain ⟨e, he, ht⟩ := hinc
+    have hne : NotElongation e.ty := by
+      unfold NotElongation
+      rcases ht with ht | ht <;> (rw [ht]; decide)
+    refine ⟨e, verifyReadEnds_has he hne hr, ?_⟩
+    rcases ht with ht | ht <;> (rw [ht]; decide)
+  · have hno : ∀ e ∈ evs, e.ty ≠ .incomplete_intron_retention_right ∧ e.ty ≠ .incomplete_intron_retention_left := by
+      intro e he
+      exact ⟨fun h => hinc ⟨e, he, Or.inl h⟩, fun h => hinc ⟨e, he, Or.inr h⟩⟩
+    apply verifyReadEnds_tail_far_major p rp I evs r hblocks hfar ?_ hr
+    unfold NoEndArtifactW at hart
+    unfold NoEndArtifact
+    cases hs : I.strand <;> simp only [hs] at hart ⊢
+    · intro e he; exact ⟨(hart e he).1, (hart e he).2, (hno e he).1⟩
+    · intro e he; exact ⟨(hart e he).1, (hart e he).2, (hno e he).2⟩
+
+/-- **tail_far_never_consistent_partial** (converse clause, "distant ends", assignment level; the paths that end in
+    `match_inconsistent` only — `tail_far_never_consistent` below covers every path): let the tail the read carries be far
     (`TailFar`: beyond `apa_delta`, no missed terminal exons) from the 3' end of EVERY isoform of the gene, and let the
     comparator report no end artifact for any of them.  Then an assignment that comes from `match_inconsistent` — directly or
     as the fall-back of `match_consistent` — is never unique / unique_minor_difference / ambiguous.
     (The elongation events never are end artifacts: `elongation_no_artifact`.) -/
-theorem tail_far_never_consistent (g : Gene) (p : Params) (rp : ReadProf) (cj : Nat → Option (List Event))
+theorem tail_far_never_consistent_partial (g : Gene) (p : Params) (rp : ReadProf) (cj : Nat → Option (List Event))
     (a : Assignment) (path : Path) (hblocks : rp.blocks ≠ [])
     (hfar : ∀ I ∈ g.isos, TailFar p rp I)
-    (hcj : ∀ I ∈ g.isos, ∀ ev, cj I.id = some ev → NoEndArtifact I ev)
-    (hel : ∀ I ∈ g.isos, ∀ el, elongationEvents g p rp I = some el → NoEndArtifact I el)
+    (hcj : ∀ I ∈ g.isos, ∀ ev, cj I.id = some ev → NoEndArtifactW I ev)
+    (hel : ∀ I ∈ g.isos, ∀ el, elongationEvents g p rp I = some el → NoEndArtifactW I el)
     (h : assignToIsoform g p rp cj = some (a, path)) (hpath : path = .inconsistent ∨ path = .fallback) :
     a.ty.is_consistent = false := by
   have hmi : matchInconsistent g p rp cj = some a := by
@@ -511,18 +568,8 @@ theorem tail_far_never_consistent (g : Gene) (p : Params) (rp : ReadProf) (cj : 
     | cons Ie rest =>
       have hIe : Ie ∈ best := by rw [hb]; exact List.mem_cons_self
       obtain ⟨hI, ev0, el, hc, _, hee, hv⟩ := hsel Ie hIe
-      have hart : NoEndArtifact Ie.1 (ev0 ++ el) := by
-        have a1 := hcj Ie.1 hI ev0 hc
-        have a2 := hel Ie.1 hI el hee
-        unfold NoEndArtifact at a1 a2 ⊢
-        cases hs : Ie.1.strand <;> simp only [hs] at a1 a2 ⊢
-        · intro e he; rcases List.mem_append.mp he with he | he
-          · exact a1 e he
-          · exact a2 e he
-        · intro e he; rcases List.mem_append.mp he with he | he
-          · exact a1 e he
-          · exact a2 e he
-      obtain ⟨e, he, hm⟩ := verifyReadEnds_tail_far_major p rp Ie.1 (ev0 ++ el) Ie.2 hblocks (hfar Ie.1 hI) hart hv
+      have hart : NoEndArtifactW Ie.1 (ev0 ++ el) := noEndArtifactW_append (hcj Ie.1 hI ev0 hc) (hel Ie.1 hI el hee)
+      obtain ⟨e, he, hm⟩ := verifyReadEnds_tail_far_major_w p rp Ie.1 (ev0 ++ el) Ie.2 hblocks (hfar Ie.1 hI) hart hv
       cases hcons : a.ty.is_consistent with
       | false => rfl
       | true =>
@@ -536,58 +583,460 @@ theorem tail_far_never_consistent (g : Gene) (p : Params) (rp : ReadProf) (cj : 
           exact ⟨Ie.2, ⟨Ie, hIe, rfl⟩, e, he, rfl⟩
         rw [this] at hm; cases hm
 
-/-- the elongation test emits terminal-site matches and exon elongations only — never an end artifact -/
-theorem elongation_no_artifact (g : Gene) (p : Params) (rp : ReadProf) (I : IsoInfo) (el : List Event)
-    (h : elongationEvents g p rp I = some el) : NoEndArtifact I el := by
-  have key : ∀ e ∈ el, e.ty = .terminal_site_match_left_precise ∨ e.ty = .terminal_site_match_left ∨
+/-- the elongation test emits terminal-site matches and exon elongations only -/
+theorem elongation_types (g : Gene) (p : Params) (rp : ReadProf) (I : IsoInfo) (el : List Event)
+    (h : elongationEvents g p rp I = some el) :
+    ∀ e ∈ el, e.ty = .terminal_site_match_left_precise ∨ e.ty = .terminal_site_match_left ∨
       e.ty = .major_exon_elongation_left ∨ e.ty = .exon_elongation_left ∨ e.ty = .terminal_site_match_right_precise ∨
       e.ty = .terminal_site_match_right ∨ e.ty = .major_exon_elongation_right ∨ e.ty = .exon_elongation_right := by
-    have hend : ∀ (t : Bool) (x : Int) (a b c d : MatchEventSubtype), ∀ e ∈ endEvents p t x a b c d,
-        e.ty = a ∨ e.ty = b ∨ e.ty = c ∨ e.ty = d := by
-      intro t x a b c d e he
-      unfold endEvents at he
-      split at he
-      · simp only [List.mem_append] at he
-        rcases he with he | he
-        · split at he
-          · simp only [List.mem_singleton] at he; subst he
-            simp only; split <;> simp
-          · cases he
-        · split at he
-          · simp only [List.mem_singleton] at he; subst he; simp
-          · split at he
-            · simp only [List.mem_singleton] at he; subst he; simp
-            · cases he
+  have hend : ∀ (t : Bool) (x : Int) (a b c d : MatchEventSubtype), ∀ e ∈ endEvents p t x a b c d,
+      e.ty = a ∨ e.ty = b ∨ e.ty = c ∨ e.ty = d := by
+    intro t x a b c d e he
+    unfold endEvents at he
+    split at he
+    · simp only [List.mem_append] at he
+      rcases he with he | he
+      · split at he
+        · simp only [List.mem_singleton] at he; subst he
+          simp only; split <;> simp
+        · cases he
       · split at he
         · simp only [List.mem_singleton] at he; subst he; simp
-        · cases he
-    unfold elongationEvents at h
-    simp only at h
-    split at h
+        · split at he
+          · simp only [List.mem_singleton] at he; subst he; simp
+          · cases he
+    · split at he
+      · simp only [List.mem_singleton] at he; subst he; simp
+      · cases he
+  unfold elongationEvents at h
+  simp only at h
+  split at h
+  · simp at h
+  · split at h
     · simp at h
     · split at h
       · simp at h
       · split at h
         · simp at h
         · split at h
+          · simp at h; subst h
+            intro e he
+            rcases List.mem_append.mp he with he | he
+            · split at he
+              · rcases hend _ _ _ _ _ _ e he with h | h | h | h <;> simp [h]
+              · cases he
+            · split at he
+              · rcases hend _ _ _ _ _ _ e he with h | h | h | h <;> simp [h]
+              · cases he
           · simp at h
-          · split at h
-            · simp at h; subst h
-              intro e he
-              rcases List.mem_append.mp he with he | he
-              · split at he
-                · rcases hend _ _ _ _ _ _ e he with h | h | h | h <;> simp [h]
-                · cases he
-              · split at he
-                · rcases hend _ _ _ _ _ _ e he with h | h | h | h <;> simp [h]
-                · cases he
-            · simp at h
+
+/-- none of the six end-artifact types (whatever the strand) -/
+def NoArt (evs : List Event) : Prop :=
+  ∀ e ∈ evs, e.ty ≠ .fake_terminal_exon_right ∧ e.ty ≠ .terminal_exon_misalignment_right ∧
+    e.ty ≠ .incomplete_intron_retention_right ∧ e.ty ≠ .fake_terminal_exon_left ∧
+    e.ty ≠ .terminal_exon_misalignment_left ∧ e.ty ≠ .incomplete_intron_retention_left
+
+theorem noArt_noEndArtifact (I : IsoInfo) {evs : List Event} (h : NoArt evs) : NoEndArtifact I evs := by
   unfold NoEndArtifact
   cases hs : I.strand <;> simp only
-  · intro e he
-    rcases key e he with h | h | h | h | h | h | h | h <;> simp [h]
-  · intro e he
-    rcases key e he with h | h | h | h | h | h | h | h <;> simp [h]
+  · intro e he; obtain ⟨a, b, c, _, _, _⟩ := h e he; exact ⟨a, b, c⟩
+  · intro e he; obtain ⟨_, _, _, a, b, c⟩ := h e he; exact ⟨a, b, c⟩
+
+theorem elongation_noArt (g : Gene) (p : Params) (rp : ReadProf) (I : IsoInfo) (el : List Event)
+    (h : elongationEvents g p rp I = some el) : NoArt el := by
+  intro e he
+  rcases elongation_types g p rp I el h e he with h | h | h | h | h | h | h | h <;> simp [h]
+
+/-- the elongation test never emits an end artifact (discharges `hel` of `tail_far_never_consistent_partial`) -/
+theorem elongation_no_artifact (g : Gene) (p : Params) (rp : ReadProf) (I : IsoInfo) (el : List Event)
+    (h : elongationEvents g p rp I = some el) : NoEndArtifact I el :=
+  noArt_noEndArtifact I (elongation_noArt g p rp I el h)
+
+/-! ### the consistent path: `match_consistent` → `check_read_ends` → `verify_read_ends_for_assignment`
+
+Item 1 of what `tail_far_never_consistent_partial` left open: the event lists `match_consistent` hands to polyA
+verification are ONE categorisation event (fsm / ism_* / mono_exon_match / mono_exonic / none) plus the elongation events
+(`add_subclassification`, model `addSub`): no end artifact.  With a far tail every selected isoform therefore gets
+`alternative_polya_site_*`, `classify_assignment` answers an inconsistent type, and `match_consistent` returns None. -/
+
+theorem noArt_single (e : Event) (h : e.ty ≠ .fake_terminal_exon_right ∧ e.ty ≠ .terminal_exon_misalignment_right ∧
+    e.ty ≠ .incomplete_intron_retention_right ∧ e.ty ≠ .fake_terminal_exon_left ∧
+    e.ty ≠ .terminal_exon_misalignment_left ∧ e.ty ≠ .incomplete_intron_retention_left) : NoArt [e] := by
+  intro x hx; simp only [List.mem_singleton] at hx; subst hx; exact h
+
+theorem noArt_append {a b : List Event} (ha : NoArt a) (hb : NoArt b) : NoArt (a ++ b) := by
+  intro e he
+  rcases List.mem_append.mp he with h | h
+  · exact ha e h
+  · exact hb e h
+
+theorem noArt_addSub {evs : List Event} {e : Event} (h1 : NoArt evs) (h2 : NoArt [e]) : NoArt (addSub evs e) := by
+  unfold addSub
+  split
+  · split
+    · exact h2
+    · intro x hx
+      simp only [List.mem_cons, List.not_mem_nil, or_false] at hx
+      rcases hx with hx | hx
+      · subst hx; exact h1 _ (by simp)
+      · subst hx; exact h2 _ (by simp)
+  · exact noArt_append h1 h2
+
+theorem noArt_foldl_addSub (el : List Event) : ∀ (evs : List Event), NoArt evs → NoArt el →
+    NoArt (el.foldl addSub evs) := by
+  induction el with
+  | nil => intro evs h _; exact h
+  | cons e t ih =>
+    intro evs h1 h2
+    simp only [List.foldl_cons]
+    apply ih
+    · exact noArt_addSub h1 (fun x hx => by simp only [List.mem_singleton] at hx; subst hx; exact h2 x (by simp))
+    · intro x hx; exact h2 x (List.mem_cons_of_mem _ hx)
+
+/-- the categorisation event of `match_consistent_spliced` is no end artifact -/
+theorem spliceMatch_noArt (rp : ReadProf) (I : IsoInfo) (m : IsoMatch) (h : spliceMatch rp I = some m) :
+    NoArt m.events := by
+  unfold spliceMatch at h
+  cases hc : categorizeSplice rp I with
+  | none => simp [hc] at h
+  | some ce =>
+    simp [hc] at h; subst h
+    simp only [mkMatchOne]
+    apply noArt_single
+    unfold categorizeSplice at hc
+    split at hc
+    · simp at hc; subst hc; decide
+    · split at hc
+      · simp at hc
+      · simp at hc; subst hc; decide
+      · cases hd : detectIsmSubtype rp I with
+        | none => simp [hd] at hc
+        | some t =>
+          simp [hd] at hc; subst hc
+          unfold detectIsmSubtype at hd
+          cases hr : regionOf I.introns with
+          | none => simp [hr] at hd
+          | some r =>
+            simp [hr] at hd
+            subst hd
+            simp only
+            split
+            · decide
+            · split
+              · decide
+              · split <;> decide
+
+/-- … nor the one of `match_consistent_unspliced` -/
+theorem unsplicedMatch_noArt (I : IsoInfo) (m : IsoMatch) (h : unsplicedMatch I = some m) : NoArt m.events := by
+  unfold unsplicedMatch at h
+  simp only at h
+  cases hc : monoExonClassification
+      (if I.exons.length = 1 then [({ ty := MatchEventSubtype.mono_exon_match } : Event)]
+       else [{ ty := MatchEventSubtype.mono_exonic }]) with
+  | none => simp [hc] at h
+  | some c =>
+    simp [hc] at h; subst h
+    simp only [mkMatchList]
+    intro e he
+    have he' := (List.mem_filter.mp he).1
+    split at he'
+    · simp only [List.mem_singleton] at he'; subst he'; decide
+    · simp only [List.mem_singleton] at he'; subst he'; decide
+
+/-- `check_read_ends` keeps the isoforms and adds elongation events only -/
+theorem checkReadEnds_noArt (g : Gene) (p : Params) (rp : ReadProf) (S : List IsoInfo) :
+    ∀ (ms : List (IsoInfo × IsoMatch)) (ty : ReadAssignmentType) (r : List (IsoInfo × IsoMatch)) (ty' : ReadAssignmentType),
+      checkReadEnds g p rp ms ty = some (r, ty') → (∀ q ∈ ms, q.1 ∈ S ∧ NoArt q.2.events) →
+      (∀ q ∈ r, q.1 ∈ S ∧ NoArt q.2.events) ∧ r.length = ms.length := by
+  intro ms
+  induction ms with
+  | nil => intro ty r ty' h _; simp [checkReadEnds] at h; obtain ⟨h1, _⟩ := h; subst h1; simp
+  | cons q t ih =>
+    intro ty r ty' h hok
+    obtain ⟨I, m⟩ := q
+    simp only [checkReadEnds] at h
+    cases hel : elongationEvents g p rp I with
+    | none => simp [hel] at h
+    | some el =>
+      simp only [hel] at h
+      split at h
+      · simp at h
+      · rename_i r' t' hrec
+        simp at h
+        obtain ⟨hr, _⟩ := h
+        subst hr
+        obtain ⟨ih1, ih2⟩ := ih _ r' t' hrec (fun q hq => hok q (List.mem_cons_of_mem _ hq))
+        obtain ⟨hS, hna⟩ := hok (I, m) (by simp)
+        refine ⟨?_, by simp [ih2]⟩
+        intro q hq
+        rcases List.mem_cons.mp hq with hq | hq
+        · subst hq
+          exact ⟨hS, noArt_foldl_addSub el m.events hna (elongation_noArt g p rp I el hel)⟩
+        · exact ih1 q hq
+
+/-- `verify_read_ends_for_assignment` with a far tail for every match: the new type is inconsistent -/
+theorem verifyEnds_tail_far (p : Params) (rp : ReadProf) (ms r : List (IsoInfo × IsoMatch)) (ty : ReadAssignmentType)
+    (hblocks : rp.blocks ≠ []) (h : verifyEndsForAssignment p rp ms = some (r, ty)) (hne : ms ≠ [])
+    (hok : ∀ q ∈ ms, TailFar p rp q.1 ∧ NoArt q.2.events) : ty.is_inconsistent = true := by
+  unfold verifyEndsForAssignment at h
+  split at h
+  · simp at h
+  · rename_i ms' hms
+    simp at h
+    obtain ⟨h1, h2⟩ := h
+    subst h1
+    have hz := mapOpt_spec _ _ _ hms
+    have hlen := forall₂_length hz
+    cases hq : ms' with
+    | nil =>
+      rw [hq] at hlen
+      simp only [List.length_nil] at hlen
+      exact absurd (List.length_eq_zero_iff.mp hlen) hne
+    | cons q' rest =>
+      have hq'm : q' ∈ ms' := by rw [hq]; exact List.mem_cons_self
+      obtain ⟨q0, hq0, hq0q⟩ := forall₂_mem_right hz q' hq'm
+      cases hv : verifyReadEnds p rp q0.1 q0.2.events with
+      | none => simp [hv] at hq0q
+      | some e =>
+        simp [hv] at hq0q
+        obtain ⟨hfar, hna⟩ := hok q0 hq0
+        obtain ⟨x, hx, hm⟩ := verifyReadEnds_tail_far_major p rp q0.1 q0.2.events e hblocks hfar
+          (noArt_noEndArtifact q0.1 hna) hv
+        rw [← h2]
+        unfold classifyAssignment
+        apply (classify_sound _ _).mpr
+        refine ⟨x.ty, ?_, hm⟩
+        simp only [List.mem_flatMap, List.mem_map]
+        refine ⟨e, ⟨q', hq'm, ?_⟩, x, hx, rfl⟩
+        rw [← hq0q]
+
+/-- **the consistent path cannot produce an assignment for a read whose tail is far from every isoform's 3' end**:
+    `match_consistent` returns None (or raises) — whatever the candidates, the resolution and the elongation events are -/
+theorem tail_far_not_consistent_path (g : Gene) (p : Params) (rp : ReadProf) (a : Assignment) (hblocks : rp.blocks ≠ [])
+    (hfar : ∀ I ∈ g.isos, TailFar p rp I) : matchConsistent g p rp ≠ some (some a) := by
+  intro h
+  unfold matchConsistent at h
+  split at h
+  · simp at h
+  · simp at h
+  · rename_i cons hcons
+    simp only at h
+    split at h
+    · simp at h
+    · rename_i matched hsel
+      split at h
+      · simp at h
+      · rename_i hne
+        split at h
+        · simp at h
+        · rename_i ms hms
+          split at h
+          · simp at h
+          · rename_i ms1 ty1 hcre
+            split at h
+            · simp at h
+            · rename_i ms2 ty2 hver
+              split at h
+              · simp at h
+              · rename_i hninc
+                have hsub : ∀ I ∈ matched, I ∈ g.isos := by
+                  intro I hI
+                  have hIc : I ∈ cons := by
+                    split at hsel
+                    · exact selectSpliced_sub p rp cons matched hsel I hI
+                    · exact selectUnspliced_sub p rp cons matched hsel I hI
+                  exact (consistentIsoforms_mem g p rp cons hcons I hIc).1
+                have hz := mapOpt_spec _ _ _ hms
+                have hok0 : ∀ q ∈ ms, q.1 ∈ matched ∧ NoArt q.2.events := by
+                  intro q hq
+                  obtain ⟨I, hI, hIq⟩ := forall₂_mem_right hz q hq
+                  split at hIq
+                  · cases hsm : spliceMatch rp I with
+                    | none => simp [hsm] at hIq
+                    | some m =>
+                      simp [hsm] at hIq; subst hIq
+                      exact ⟨hI, spliceMatch_noArt rp I m hsm⟩
+                  · cases hsm : unsplicedMatch I with
+                    | none => simp [hsm] at hIq
+                    | some m =>
+                      simp [hsm] at hIq; subst hIq
+                      exact ⟨hI, unsplicedMatch_noArt I m hsm⟩
+                obtain ⟨hok1, hl1⟩ := checkReadEnds_noArt g p rp matched ms _ ms1 ty1 hcre hok0
+                have hl0 := forall₂_length hz
+                have hms1 : ms1 ≠ [] := by
+                  intro e
+                  rw [e] at hl1
+                  simp only [List.length_nil] at hl1
+                  have : matched.length = 0 := by omega
+                  apply hne
+                  simp [List.length_eq_zero_iff.mp this]
+                have := verifyEnds_tail_far p rp ms1 ms2 ty2 hblocks hver hms1
+                  (fun q hq => ⟨hfar q.1 (hsub q.1 (hok1 q hq).1), (hok1 q hq).2⟩)
+                exact hninc this
+
+/-- the two paths that never call a matcher: the type is the path's own -/
+theorem assign_trivial_ty (g : Gene) (p : Params) (rp : ReadProf) (cj : Nat → Option (List Event)) (a : Assignment)
+    (path : Path) (h : assignToIsoform g p rp cj = some (a, path)) :
+    (path = .intergenic → a.ty = .intergenic) ∧ (path = .noninformative → a.ty = .noninformative) := by
+  unfold assignToIsoform at h
+  split at h
+  · simp only [Option.some.injEq, Prod.mk.injEq] at h
+    obtain ⟨rfl, rfl⟩ := h
+    exact ⟨fun _ => rfl, nofun⟩
+  · cases hn : noninformativeAssignment g rp with
+    | none => simp [hn] at h
+    | some a' =>
+      simp only [hn, Option.map_some, Option.some.injEq, Prod.mk.injEq] at h
+      obtain ⟨rfl, rfl⟩ := h
+      refine ⟨nofun, fun _ => ?_⟩
+      unfold noninformativeAssignment at hn
+      split at hn
+      · cases hn
+      · simp only [Option.some.injEq] at hn; subst hn; rfl
+  · simp only [Option.map_eq_some_iff, Prod.mk.injEq] at h
+    obtain ⟨_, _, _, rfl⟩ := h
+    exact ⟨nofun, nofun⟩
+  · split at h
+    · cases h
+    · simp only [Option.some.injEq, Prod.mk.injEq] at h
+      obtain ⟨_, rfl⟩ := h
+      exact ⟨nofun, nofun⟩
+    · simp only [Option.map_eq_some_iff, Prod.mk.injEq] at h
+      obtain ⟨_, _, _, rfl⟩ := h
+      exact ⟨nofun, nofun⟩
+
+/-- **tail_far_never_consistent** (converse clause, "distant ends", assignment level, EVERY path of `assign_to_isoform`):
+    let the tail the read carries be far (`TailFar`: beyond `apa_delta`, no missed terminal exons) from the 3' end of EVERY
+    isoform of the gene, and let the comparator report no fake terminal exon / terminal exon misalignment at that end for
+    any of them (`NoEndArtifactW`; derived from the read's geometry in `tail_far_never_consistent_geom`).  Then the assignment is never
+    unique / unique_minor_difference / ambiguous, and it never comes from the consistent path: `match_consistent` itself
+    gives the read up (`tail_far_not_consistent_path`), `match_inconsistent` reports `alternative_polya_site_*`
+    (`tail_far_never_consistent_partial`), the two remaining paths are intergenic / noninformative. -/
+theorem tail_far_never_consistent (g : Gene) (p : Params) (rp : ReadProf) (cj : Nat → Option (List Event))
+    (a : Assignment) (path : Path) (hblocks : rp.blocks ≠ [])
+    (hfar : ∀ I ∈ g.isos, TailFar p rp I)
+    (hcj : ∀ I ∈ g.isos, ∀ ev, cj I.id = some ev → NoEndArtifactW I ev)
+    (h : assignToIsoform g p rp cj = some (a, path)) :
+    a.ty.is_consistent = false ∧ path ≠ .consistent := by
+  have hnc : path ≠ .consistent := by
+    intro hp
+    obtain ⟨h1, h2, h3, h4⟩ := IsoVerif.Props.C01Far.path_of_dispatch g p rp cj a path h
+    cases hd : dispatch g rp with
+    | intergenic => have := h1 hd; rw [hp] at this; cases this
+    | noninformative => have := h2 hd; rw [hp] at this; cases this
+    | inconsistent => have := (h3 hd).1; rw [hp] at this; cases this
+    | consistent =>
+      rcases h4 hd with ⟨_, hm⟩ | ⟨hp', _⟩
+      · exact tail_far_not_consistent_path g p rp a hblocks hfar hm
+      · rw [hp] at hp'; cases hp'
+    | fallback =>
+      unfold dispatch at hd
+      split at hd <;> (try split at hd) <;> (try split at hd) <;> (try split at hd) <;> cases hd
+  refine ⟨?_, hnc⟩
+  obtain ⟨t1, t2⟩ := assign_trivial_ty g p rp cj a path h
+  cases path with
+  | intergenic => rw [t1 rfl]; decide
+  | noninformative => rw [t2 rfl]; decide
+  | consistent => exact absurd rfl hnc
+  | inconsistent =>
+    exact tail_far_never_consistent_partial g p rp cj a _ hblocks hfar hcj
+      (fun I _ el hel => noEndArtifact_weaken (elongation_no_artifact g p rp I el hel)) h (Or.inl rfl)
+  | fallback =>
+    exact tail_far_never_consistent_partial g p rp cj a _ hblocks hfar hcj
+      (fun I _ el hel => noEndArtifact_weaken (elongation_no_artifact g p rp I el hel)) h (Or.inr rfl)
+
+/-! ### item 2: the comparator hypothesis derived from the GEOMETRY of the read -/
+
+/-- position-only form of "nothing at the read's 3' end (w.r.t. isoform `I`) can be taken for a fake terminal exon or a
+    misaligned terminal exon": the read's outermost exon on I's 3' side is longer than `max_fake_terminal_exon_len`
+    (spliced reads) and, for reads with at least two introns, differs from I's outermost exon on that side by at least 2δ in
+    length (`endCleanRight` / `endCleanLeft`, Model/JunctionSpec.lean) -/
+def EndGeom (p : Params) (rp : ReadProf) (I : IsoInfo) : Prop :=
+  match I.strand with
+  | .plus => endCleanRight p rp.introns rp.region I.introns I.region = true
+  | .minus => endCleanLeft p rp.introns rp.region I.introns I.region = true
+  | .other => True
+
+instance (p : Params) (rp : ReadProf) (I : IsoInfo) : Decidable (EndGeom p rp I) := by
+  unfold EndGeom; cases I.strand <;> infer_instance
+
+/-- **`hcj` from the geometry**: under `EndGeom` the MODELLED comparator reports no end artifact that could re-interpret
+    the tail (all inputs: no well-formedness of the chains is assumed) -/
+theorem cjModel_no_end_artifact (ms : List Isoform) (g : Gene) (p : Params) (q : CParams) (rp : ReadProf)
+    (hg : Gene.fromModels ms = some g) (I : IsoInfo) (hI : I ∈ g.isos) (hgeo : EndGeom p rp I) (ev : List Event)
+    (h : cjModel g p q rp I.id = some ev) : NoEndArtifactW I ev := by
+  unfold cjModel at h
+  split at h
+  · cases h
+  · rename_i I' hfind
+    have hI' : I' ∈ g.isos := List.mem_of_find?_eq_some hfind
+    have hid : I'.id = I.id := by
+      have := List.find?_some hfind
+      simpa using this
+    have heq : I' = I := pairwise_id_inj g.isos (isos_pairwise ms g hg) I' hI' I hI hid
+    subst heq
+    unfold EndGeom at hgeo
+    unfold NoEndArtifactW
+    cases hs : I'.strand <;> simp only [hs] at hgeo ⊢
+    · exact compareJunctions_clean_right (cmpCtxOf g p q) _ _ _ _ ev h hgeo
+    · exact compareJunctions_clean_left (cmpCtxOf g p q) _ _ _ _ ev h hgeo
+
+/-- **tail_far_never_consistent_geom** (converse clause, "distant ends", every path, comparator modelled, hypotheses on
+    POSITIONS only): if the tail the read carries is far (`TailFar`: every reported position farther than `apa_delta` from
+    the annotated 3' end, no missed terminal exons) from EVERY isoform of the gene and the read's end is `EndGeom`-clean for
+    every isoform, `assign_to_isoform` never reports unique / unique_minor_difference / ambiguous and never answers from
+    the consistent path.  No hypothesis on the comparator's output, the profiles, the candidates or the scores. -/
+theorem tail_far_never_consistent_geom (ms : List Isoform) (g : Gene) (p : Params) (q : CParams) (rp : ReadProf)
+    (a : Assignment) (path : Path) (hg : Gene.fromModels ms = some g) (hblocks : rp.blocks ≠ [])
+    (hfar : ∀ I ∈ g.isos, TailFar p rp I) (hgeo : ∀ I ∈ g.isos, EndGeom p rp I)
+    (h : assignToIsoformM g p q rp = some (a, path)) :
+    a.ty.is_consistent = false ∧ path ≠ .consistent :=
+  tail_far_never_consistent g p rp (cjModel g p q rp) a path hblocks hfar
+    (fun I hI ev hev => cjModel_no_end_artifact ms g p q rp hg I hI (hgeo I hI) ev hev) h
+
+/-! ### Boolean form (what the driver evaluates for the oracle) -/
+
+theorem tailBeyondB_iff (d stop ext int : Int) : tailBeyondB d stop ext int = true ↔ TailBeyond d stop ext int := by
+  simp only [tailBeyondB, TailBeyond, Bool.and_eq_true, Bool.or_eq_true, decide_eq_true_eq, and_assoc]
+
+theorem longTerminalB_iff (p : Params) (iso : List Iv) (front : Bool) :
+    longTerminalB p iso front = true ↔ LongTerminal p iso front := by
+  unfold LongTerminal
+  simp only [longTerminalB, List.all_eq_true, List.mem_range, Bool.or_eq_true, beq_iff_eq, Bool.and_eq_true,
+    decide_eq_true_eq]
+  constructor
+  · intro h c hc0 hcl
+    rcases h c hcl with h0 | h
+    · omega
+    · exact h
+  · intro h c hcl
+    by_cases hc : c = 0
+    · exact Or.inl hc
+    · exact Or.inr (h c (by omega) hcl)
+
+theorem tailFarB_iff (p : Params) (rp : ReadProf) (I : IsoInfo) : tailFarB p rp I = true ↔ TailFar p rp I := by
+  unfold tailFarB TailFar
+  cases hs : I.strand <;> simp only
+  · cases hl : I.exons.getLast? with
+    | none => simp
+    | some l => simp [tailBeyondB_iff, longTerminalB_iff]
+  · cases hl : I.exons.head? with
+    | none => simp
+    | some f => simp [tailBeyondB_iff, longTerminalB_iff]
+  · simp
+
+theorem endGeomB_iff (p : Params) (rp : ReadProf) (I : IsoInfo) : endGeomB p rp I = true ↔ EndGeom p rp I := by
+  unfold endGeomB EndGeom
+  cases hs : I.strand <;> simp
+
+/-- `tail_far_never_consistent_geom` with the hypotheses in the Boolean form the driver evaluates (`C01.tail_clause_hyp`) -/
+theorem tail_far_never_consistent_b (ms : List Isoform) (g : Gene) (p : Params) (q : CParams) (rp : ReadProf)
+    (a : Assignment) (path : Path) (hg : Gene.fromModels ms = some g) (hyp : tailClauseHyp g p rp = true)
+    (h : assignToIsoformM g p q rp = some (a, path)) : a.ty.is_consistent = false ∧ path ≠ .consistent := by
+  simp only [tailClauseHyp, Bool.and_eq_true, Bool.not_eq_true', List.isEmpty_eq_false_iff, List.all_eq_true] at hyp
+  obtain ⟨hb, hall⟩ := hyp
+  exact tail_far_never_consistent_geom ms g p q rp a path hg hb
+    (fun I hI => (tailFarB_iff p rp I).mp (hall I hI).1) (fun I hI => (endGeomB_iff p rp I).mp (hall I hI).2) h
 
 /-! ### non-vacuity: the audit's probe (`/tmp/audit2-A/probes/C01/p1_internal_priming.py`) in the model -/
 
@@ -625,5 +1074,27 @@ example : LongTerminal exP [(5001, 5300), (5801, 6100), (6701, 7200), (7901, 830
   simp only [List.length_cons, List.length_nil] at h2
   have : c = 1 ∨ c = 2 ∨ c = 3 := by omega
   rcases this with rfl | rfl | rfl <;> decide
+
+/-- the hypotheses of `tail_far_never_consistent_geom` / `_b` hold for the probe — for BOTH isoforms of the gene (the read
+    ends deep inside the intron of U that skips exon 3: `incomplete_intron_retention_right` is emitted for U and needs no
+    exclusion) — and the model answers inconsistent_non_intronic on the fall-back path -/
+def hypOf (ms : List Isoform) (p : Params) (blocks : List Iv) (pa : PolyA) : Option Bool :=
+  match Gene.fromModels ms with
+  | none => none
+  | some g => (constructProfiles g p blocks pa).map (fun rp => tailClauseHyp g p rp)
+
+example : hypOf primIso exP [(5001, 5300), (5801, 6100), (6701, 6925)] ⟨-1, -1, 6901, -1⟩ = some true := by decide +kernel
+
+/-- the zone `apa_delta < distance < 200`: a read of T truncated 120 bp before T's end with an A-rich aligned end
+    (internal position 8180): the hypotheses hold and the model answers inconsistent_non_intronic -/
+example : hypOf primIso exP [(5001, 5300), (5801, 6100), (6701, 7200), (7901, 8200)] ⟨-1, -1, 8180, -1⟩ = some true ∧
+    viewA (assignReadM primIso exP exQ [(5001, 5300), (5801, 6100), (6701, 7200), (7901, 8200)] ⟨-1, -1, 8180, -1⟩)
+      = some (.inconsistent_non_intronic, [some 0], .fallback) := by decide +kernel
+
+/-- the hypotheses fail when the tail is at T's end, when the last read exon is short, and when the terminal exons have
+    similar lengths (the class of the known finding `terminal_exon_misalignment_far`) -/
+example : hypOf primIso exP [(5001, 5300), (5801, 6100), (6701, 7200), (7901, 8300)] ⟨8300, -1, -1, -1⟩ = some false ∧
+    hypOf primIso exP [(5001, 5300), (5801, 6100), (6701, 6730)] ⟨-1, -1, 6720, -1⟩ = some false ∧
+    hypOf primIso exP [(5001, 5300), (5801, 6100), (6701, 7105)] ⟨-1, -1, 7100, -1⟩ = some false := by decide +kernel
 
 end IsoVerif.Props.C01Tail
